@@ -71,7 +71,7 @@ func (x *Explorer) Replay(choices []int) *Result {
 	o := x.Opts
 	o.Trace = true
 	o.Prune = false
-	o.PreemptBound, o.FaultBound = -1, -1
+	o.PreemptBound, o.FaultBound, o.OrderBound = -1, -1, -1
 	return run(x.Body, choices, &o, nil)
 }
 
@@ -189,6 +189,10 @@ func (x *Explorer) Explore() error {
 					continue
 				}
 				if x.Opts.FaultBound >= 0 && p.fltBefore+p.fcosts[alt] > x.Opts.FaultBound {
+					x.Stats.BoundReached++
+					continue
+				}
+				if x.Opts.OrderBound >= 0 && p.ordBefore+p.ocosts[alt] > x.Opts.OrderBound {
 					x.Stats.BoundReached++
 					continue
 				}
